@@ -286,6 +286,19 @@ def _exact(v, t) -> bool:
     return False
 
 
+def _alt_kind(alt):
+    if is_anon_td(alt):
+        return "dict"
+    if alt is typing.Callable:
+        return "Callable"
+    if is_generic(alt):
+        n = gname(alt)
+        if n == "Type":
+            return ("Type", args_of(alt)[0] if args_of(alt) else None)
+        return {"Dict": "dict"}.get(n, n)
+    return alt
+
+
 def witnessed(t, values, path="$", allow_any=False):
     """C05 lock-step walk.  `values` are all the runtime values observed at the position that
     `t` describes.  Returns None when tight, else a description of the first slack found."""
@@ -299,13 +312,19 @@ def witnessed(t, values, path="$", allow_any=False):
                 continue  # an empty container was observed at this slot
             return f"{path}: Any as a union alternative although no empty container was observed here"
         mine = [v for v in values if _exact(v, alt) and conforms(v, alt)]
+        unique_kind = sum(1 for a in alts if _alt_kind(a) == _alt_kind(alt)) == 1
+        if unique_kind:
+            # the only alternative of its kind at this position: it describes EVERY observed value of
+            # that kind here (e.g. "required" must hold for all str-keyed dicts, an element type for the
+            # elements of all lists), not just the values that happen to conform
+            mine = [v for v in values if _exact(v, alt)]
         if not mine:
             return f"{path}: alternative {show_type(alt)} not inhabited by any observed value"
         # The alternative must be exactly witnessed by SOME non-empty subset of the values it
         # describes (alternatives of one container kind stem from different observed values,
         # e.g. Union[Dict[Any, Any], Dict[int, str]] from {} and {0: 's'}).  A TypedDict
         # alternative merges every str-keyed dict at the position, so it is judged on all of them.
-        if is_anon_td(alt) or len(mine) == 1 or len(mine) > 8:
+        if unique_kind or is_anon_td(alt) or len(mine) == 1 or len(mine) > 8:
             subsets = [mine]
         else:
             subsets = [[v for i, v in enumerate(mine) if m >> i & 1] for m in range(2 ** len(mine) - 1, 0, -1)]
